@@ -10,6 +10,7 @@ import Proofs.C02F16
 import Proofs.C02Float
 import Proofs.C02Text
 import Proofs.C02Big
+import Proofs.C02FloatRd
 /-!
   C02 — "Scalar readers return the mathematical value of the bits they consume".
   Property theorems about the model FqModel/Scalar.lean (+ the regenerated table of
@@ -19,6 +20,10 @@ import Proofs.C02Big
   Conventions: `bs` is the whole input (any length, not only whole bytes), `pos` any bit
   position (any alignment), `ofBitsBE (slice bs pos n)` the big-endian value of the n bits at
   pos, `leValue` = Σ byteᵢ·256^i, `signedOf n u` the n-bit two's complement reading of u.
+
+  Sections: unsigned / signed integers, LEB128, position after a failed read (per family), unary
+  and bool, floats (both byte orders), fixed point (all n), big integers, text framing, text on
+  arbitrary bytes (no fault), UTF-8/16 codecs, non-vacuity examples.
 
   What the code does on a failed read (modelled, validated by correspondence, and stated in
   `tryU_short`): the error is returned but the position is NOT restored — the reader has moved to
@@ -52,6 +57,30 @@ theorem tryU_short_moves :
 theorem tryU_too_wide (bs : Bits) (pos n : Nat) (e : Endian) (hn : 64 < n) :
     tryUEndian bs pos n e = .err .other pos := by
   simp [tryUEndian, tryUintBits, hn, Res.bind]
+
+/-- little-endian at ANY width 0..64, exactly what the code returns: the n bits are read as a
+    big-endian number u, and the k = ⌈n/8⌉ base-256 digits of u are reversed.  For 8 ∣ n this is the
+    little-endian value (`tryU_le`); otherwise it is NOT a little-endian reading of the bit stream. -/
+theorem tryU_le_any (bs : Bits) (pos n : Nat) (hn : n ≤ 64) (h : pos + n ≤ bs.length) :
+    tryUEndian bs pos n .le = .ok (revDigits ((n + 7) / 8) (ofBitsBE (slice bs pos n))) (pos + n) := by
+  have hl : (slice bs pos n).length = n := slice_length bs pos n h
+  have hu : ofBitsBE (slice bs pos n) < 2 ^ (8 * ((n + 7) / 8)) := by
+    have h1 := ofBitsBE_lt (slice bs pos n)
+    rw [hl] at h1
+    have h2 : 2 ^ n ≤ 2 ^ (8 * ((n + 7) / 8)) := Nat.pow_le_pow_right (by decide) (by omega)
+    omega
+  have := reverseBytes64_digits n _ hn hu
+  simp only [tryUEndian, tryUintBits_ok bs pos n hn h, Res.bind]
+  cases hr : reverseBytes64 n (BitVec.ofNat 64 (ofBitsBE (slice bs pos n))) with
+  | none => rw [hr] at this; simp at this
+  | some r => rw [hr] at this; simp at this; simp [this]
+
+/-- the boundary of the property made explicit: a 12-bit "little-endian" read of the bits ABC (hex)
+    returns 0xBC0A — not even a 12-bit number, and not 0xCAB (low byte first) -/
+theorem tryU_le_nonbyte_witness :
+    tryUEndian (bytesToBits [0xAB, 0xC0]) 0 12 .le = .ok 0xBC0A 12 ∧ ¬ (0xBC0A < 2 ^ 12)
+    ∧ tryUEndian (bytesToBits [0xAB, 0xC0]) 0 12 .be = .ok 0xABC 12 := by
+  decide +kernel
 
 /-- ReverseBytes64: for k = ⌈n/8⌉ and u < 2^(8k) the k base-256 digits of u are reversed -/
 theorem reverseBytes64_spec (n u : Nat) (hn : n ≤ 64) (hu : u < 2 ^ (8 * ((n + 7) / 8))) :
@@ -187,6 +216,75 @@ theorem bool_spec (pre rest : Bits) (b : Bool) :
   simp only [tryBool, tryUintBits_ok _ _ 1 (by decide) h, hs, Res.map]
   cases b <;> simp [ofBitsBE]
 
+/-! ### where the position is after a FAILED read, family by family
+    (integers: `tryU_short`, `tryS_short`, `bigInt_short` — at the end of the input;
+     unary: `unary_eof` — restored; text: `text_*_total` above) -/
+
+theorem bool_short (bs : Bits) (pos : Nat) (h : bs.length < pos + 1) :
+    tryBool bs pos = .err .eof (max pos bs.length) := by
+  simp [tryBool, tryUintBits_short bs pos 1 (by decide) (by decide) h, Res.map]
+
+theorem tryF_short (bs : Bits) (pos n : Nat) (e : Endian) (h0 : 0 < n) (h : bs.length < pos + n) :
+    tryFEndian bs pos n e = .err .eof (max pos bs.length) := by
+  simp [tryFEndian, tryBits_short bs pos n h0 h, Res.bind]
+
+theorem tryFP_short (bs : Bits) (pos n : Nat) (f : Int) (e : Endian) (h0 : 0 < n) (hn : n ≤ 64) (h : bs.length < pos + n) :
+    tryFPEndian bs pos n f e = .err .eof (max pos bs.length) := by
+  simp [tryFPEndian, tryUEndian_short bs pos n e h0 hn h, Res.bind]
+
+/-- LEB128 running out of input after k ≤ 9 continuation bytes: the IOError of d.U8(), with the
+    position at the end of the input (the complete bytes AND the incomplete tail are consumed) -/
+theorem uleb128_eof_after (cs : List Nat) (hl : cs.length ≤ 9) (hc : ∀ c ∈ cs, 128 ≤ c ∧ c < 256)
+    (pre tail : Bits) (ht : tail.length < 8) :
+    tryULEB128 (pre ++ bitsOfBytes cs ++ tail) pre.length = .ioerr .eof (pre.length + 8 * cs.length + tail.length) := by
+  have hbl := bitsOfBytes_length cs
+  have hfuel : ((pre ++ bitsOfBytes cs ++ tail).length - pre.length) / 8 + 2 = 2 + cs.length := by
+    simp only [List.length_append, hbl]; omega
+  rw [tryULEB128, hfuel]
+  obtain ⟨r', hr'⟩ := uleb_conts cs pre tail 0 0 2 hc (by omega)
+  rw [hr']
+  unfold ulebLoop
+  rw [u8_short _ _ (by simp only [List.length_append, hbl]; omega)]
+  simp only [Res.bind, List.length_append, hbl]
+  congr 1; omega
+
+theorem sleb128_eof_after (cs : List Nat) (hl : cs.length ≤ 9) (hc : ∀ c ∈ cs, 128 ≤ c ∧ c < 256)
+    (pre tail : Bits) (ht : tail.length < 8) :
+    trySLEB128 (pre ++ bitsOfBytes cs ++ tail) pre.length = .ioerr .eof (pre.length + 8 * cs.length + tail.length) := by
+  have hbl := bitsOfBytes_length cs
+  have hfuel : ((pre ++ bitsOfBytes cs ++ tail).length - pre.length) / 8 + 2 = 2 + cs.length := by
+    simp only [List.length_append, hbl]; omega
+  rw [trySLEB128, hfuel]
+  obtain ⟨r', hr'⟩ := sleb_conts cs pre tail 0 0#64 2 hc (by omega)
+  rw [hr']
+  unfold slebLoop
+  rw [u8_short _ _ (by simp only [List.length_append, hbl]; omega)]
+  simp only [Res.bind, List.length_append, hbl]
+  congr 1; omega
+
+/-- signed LEB128 overflow: nine continuation bytes and a tenth byte other than 0x00 / 0x7f: an
+    error, with the position after the tenth byte -/
+theorem sleb128_overflow (cs : List Nat) (b : Nat) (hl : cs.length = 9) (hc : ∀ c ∈ cs, 128 ≤ c ∧ c < 256)
+    (hb0 : b ≠ 0) (hb7 : b ≠ 0x7f) (hb : b < 256) (pre rest : Bits) :
+    trySLEB128 (pre ++ bitsOfBytes (cs ++ [b]) ++ rest) pre.length = .err .other (pre.length + 80) := by
+  have hsplit : pre ++ bitsOfBytes (cs ++ [b]) ++ rest = pre ++ bitsOfBytes cs ++ (toBitsBE 8 b ++ rest) := by
+    simp [bitsOfBytes, List.append_assoc]
+  have hbl : (bitsOfBytes cs).length = 72 := by rw [bitsOfBytes_length, hl]
+  have hfuel : ((pre ++ bitsOfBytes cs ++ (toBitsBE 8 b ++ rest)).length - pre.length) / 8 + 2 = (rest.length / 8 + 3) + cs.length := by
+    simp only [List.length_append, hbl, toBitsBE_length, hl]; omega
+  rw [trySLEB128, hsplit, hfuel]
+  obtain ⟨r', hr'⟩ := sleb_conts cs pre (toBitsBE 8 b ++ rest) 0 0#64 (rest.length / 8 + 3) hc (by omega)
+  rw [hr', hl]
+  have hassoc : pre ++ bitsOfBytes cs ++ (toBitsBE 8 b ++ rest) = (pre ++ bitsOfBytes cs) ++ toBitsBE 8 b ++ rest := by
+    simp [List.append_assoc]
+  have hplen : (pre ++ bitsOfBytes cs).length = pre.length + 8 * 9 := by simp [hbl]
+  rw [hassoc, ← hplen]
+  unfold slebLoop
+  rw [u8_at _ rest b hb]
+  simp only [Res.bind]
+  have : (True ∧ b ≠ 0 ∧ b ≠ 127) := ⟨trivial, hb0, hb7⟩
+  rw [if_pos this, hplen]
+
 /-! ### floats -/
 
 /-- expandF16ToF32 is exact on ALL 65 536 half precision patterns: the binary32 pattern it
@@ -246,6 +344,35 @@ theorem tryF_be (bs : Bits) (pos n : Nat) (hn : n = 32 ∨ n = 64 ∨ n = 80) (h
     have hl16 : ((slice bs pos 80).take 16).length = 16 := by simp [hl]
     rwa [hl16] at this
 
+/-- ALL float readers, BOTH byte orders, any alignment: with X the integer value of the n bits
+    (big-endian value for BE, Σ byteᵢ·256^i for LE — i.e. the bytes reversed) a 16- or 32-bit read
+    denotes the same number as the half / single precision pattern X, a 64-bit read IS X, an 80-bit
+    read is the correctly rounded binary64 of (X / 2^64, X % 2^64); the position advances by n -/
+theorem tryF_spec (bs : Bits) (pos n : Nat) (e : Endian) (hn : n = 16 ∨ n = 32 ∨ n = 64 ∨ n = 80)
+    (h : pos + n ≤ bs.length) :
+    ∃ bits, tryFEndian bs pos n e = .ok bits (pos + n) ∧
+      floatOk n (match e with | .be => ofBitsBE (slice bs pos n) | .le => leValue (slice bs pos n)) bits :=
+  tryFEndian_on bs pos n e hn h
+
+/-- little-endian float reads (the instance of `tryF_spec` the correspondence used to carry alone) -/
+theorem tryF_le (bs : Bits) (pos n : Nat) (hn : n = 16 ∨ n = 32 ∨ n = 64 ∨ n = 80) (h : pos + n ≤ bs.length) :
+    ∃ bits, tryFEndian bs pos n .le = .ok bits (pos + n) ∧ floatOk n (leValue (slice bs pos n)) bits :=
+  tryFEndian_on bs pos n .le hn h
+
+/-- reading a float16 (expand to binary32, widen to binary64) denotes the half precision number -/
+theorem f16_read_exact_all (h : Nat) (hh : h < 65536) :
+    (val64 (widen32 (expandF16ToF32 h))).same (val16 h) = true := f16_read_exact h hh
+
+/-- "denotes the same number" is transitive (it is equality of m·2^e) -/
+theorem same_transitive (x y z : IEEEVal) (h1 : x.same y = true) (h2 : y.same z = true) : x.same z = true :=
+  same_trans x y z h1 h2
+
+/-- a float size other than 16/32/64/80: error AFTER the bits were consumed (read.go:92-109) -/
+theorem tryF_unsupported (bs : Bits) (pos n : Nat) (e : Endian) (hn : n ≠ 16 ∧ n ≠ 32 ∧ n ≠ 64 ∧ n ≠ 80)
+    (h0 : 0 < n) (h : pos + n ≤ bs.length) :
+    tryFEndian bs pos n e = .err .other (pos + n) := by
+  simp [tryFEndian, tryBits_ok bs pos n h, Res.bind, hn.1, hn.2.1, hn.2.2.1, hn.2.2.2]
+
 /-- Go `float64(x)` of a float32 denotes the same number, for ALL 2^32 patterns -/
 theorem f32_widen_exact (b : Nat) : (val64 (widen32 b)).same (val32 b) = true := widen32_exact b
 
@@ -264,6 +391,18 @@ theorem roundF64_representable (neg : Bool) (m : Nat) (e : Int) (hm0 : m ≠ 0) 
 theorem fp_exact (u f : Nat) (hu : u < 2 ^ 53) (hf : f < 64) :
     (val64 (fpToF64 u f)).same (.fin false u (-(f : Int))) = true :=
   fpToF64_exact u f hu hf
+
+/-- fixed point for EVERY 64-bit integer: Go computes `float64(n) / float64(1<<f)` — a rounding of n
+    to 53 bits followed by an exact division — and that IS the binary64 nearest (ties to even) to the
+    exact rational n / 2^f.  No double rounding. -/
+theorem fp_correctly_rounded (u f : Nat) (hu : u < 2 ^ 64) (hf : f < 64) :
+    fpToF64 u f = roundF64 false u (-(f : Int)) :=
+  fpToF64_correctly_rounded u f hu hf
+
+/-- f ≥ 64: the Go shift `1<<f` on a uint64 is 0, the quotient is +Inf (NaN for n = 0) — quirk kept -/
+theorem fp_shift_out (u f : Nat) (hf : 64 ≤ f) :
+    fpToF64 u f = if u = 0 then 0x7FF8000000000001 else 0x7FF0000000000000 := by
+  simp [fpToF64, hf]
 
 theorem tryFP_be (bs : Bits) (pos n : Nat) (f : Nat) (hn : n ≤ 64) (h : pos + n ≤ bs.length) :
     tryFPEndian bs pos n (f : Int) .be = .ok (fpToF64 (ofBitsBE (slice bs pos n)) f) (pos + n) := by
@@ -341,6 +480,71 @@ theorem text_short_restore (bs : Bits) (pos : Nat) (h8 : pos + 8 ≤ bs.length)
     tryTextLenPrefixedFrame bs pos 1 (-1) = .err .eof pos :=
   textShort_restore bs pos h8 h
 
+/-! ### text readers on ARBITRARY bytes: a string or an error, never a fault; position rule
+    (`decodeText` is a total function — golang.org/x/text substitutes U+FFFD, transliterated in
+    `utf8Replace` / `utf16Units` and compared with the real decoders on malformed input) -/
+
+/-- fixed length text of any encoding over any bytes: a string and exactly 8·n bits consumed, or an
+    error with the position unchanged -/
+theorem text_fixed_total (e : Enc) (bs : Bits) (pos : Nat) (n : Int) (hp : pos ≤ bs.length) :
+    (∃ s, textVal e (tryTextFrame bs pos n) = .ok (.t s) (pos + 8 * n.toNat))
+    ∨ textVal e (tryTextFrame bs pos n) = .err .other pos := by
+  rcases textFrame_cases bs pos n hp with ⟨fr, h⟩ | h
+  · exact Or.inl ⟨_, by rw [h]; rfl⟩
+  · exact Or.inr (by rw [h]; rfl)
+
+/-- fixed length with optional null -/
+theorem text_nullfixed_total (e : Enc) (bs : Bits) (pos : Nat) (n : Int) (hp : pos ≤ bs.length) :
+    (∃ s, textVal e (tryTextNullLenFrame bs pos n) = .ok (.t s) (pos + 8 * n.toNat))
+    ∨ textVal e (tryTextNullLenFrame bs pos n) = .err .other pos := by
+  rcases textNullLenFrame_cases bs pos n hp with ⟨fr, h⟩ | h
+  · exact Or.inl ⟨_, by rw [h]; rfl⟩
+  · exact Or.inr (by rw [h]; rfl)
+
+/-- null terminated: a string and the position just after a terminator inside the input, or an
+    error with the position where it was -/
+theorem text_null_total (e : Enc) (bs : Bits) (pos cb : Nat) :
+    (∃ s off, textVal e (tryTextNullFrame bs pos cb) = .ok (.t s) (off + 8 * cb) ∧ pos ≤ off ∧ off + 8 * cb ≤ bs.length)
+    ∨ textVal e (tryTextNullFrame bs pos cb) = .err .eof pos
+    ∨ textVal e (tryTextNullFrame bs pos cb) = .err .other pos := by
+  rcases textNullFrame_cases bs pos cb with ⟨fr, off, h, h1, h2⟩ | h | h
+  · exact Or.inl ⟨_, off, by rw [h]; rfl, h1, h2⟩
+  · exact Or.inr (Or.inl (by rw [h]; rfl))
+  · exact Or.inr (Or.inr (by rw [h]; rfl))
+
+/-- length prefixed (as the generated readers call it: one length byte, fixed field absent or ≥ 1):
+    a string, or an error with the position restored / unchanged, or — when not even the length
+    byte is there — an error with the position at the end of the input.  Never a fault.
+    (A fixed field of 0 bytes would be one: `make([]byte, -1)`; no caller can reach it, see
+    `text_short_fixed0_witness`.) -/
+theorem text_short_total (e : Enc) (bs : Bits) (pos : Nat) (fixed : Int) (hp : pos ≤ bs.length)
+    (hfx : fixed = -1 ∨ 1 ≤ fixed) :
+    (∃ s p, textVal e (tryTextLenPrefixedFrame bs pos 1 fixed) = .ok (.t s) p ∧ pos + 8 ≤ p ∧ p ≤ bs.length)
+    ∨ textVal e (tryTextLenPrefixedFrame bs pos 1 fixed) = .err .eof pos
+    ∨ textVal e (tryTextLenPrefixedFrame bs pos 1 fixed) = .err .other pos
+    ∨ (textVal e (tryTextLenPrefixedFrame bs pos 1 fixed) = .err .eof bs.length ∧ bs.length < pos + 8) := by
+  rcases textLenPrefixedFrame_cases bs pos fixed hp hfx with ⟨fr, p, h, h1, h2⟩ | h | h | ⟨h, h1⟩
+  · exact Or.inl ⟨_, p, by rw [h]; rfl, h1, h2⟩
+  · exact Or.inr (Or.inl (by rw [h]; rfl))
+  · exact Or.inr (Or.inr (Or.inl (by rw [h]; rfl)))
+  · exact Or.inr (Or.inr (Or.inr ⟨by rw [h]; rfl, h1⟩))
+
+/-- the one argument value for which the length-prefixed reader faults (Go run-time panic
+    makeslice): a fixed field of 0 bytes with a readable length byte -/
+theorem text_short_fixed0_witness :
+    tryTextLenPrefixedFrame (bytesToBits [3, 0x61]) 0 1 0 = .panic "makeslice" 8 := by decide +kernel
+
+/-- ill-formed UTF-8 becomes U+FFFD per maximal ill-formed subpart (not per byte): truncated,
+    over-long, surrogate, out of range and stray continuation bytes -/
+theorem utf8_replacement_examples :
+    decodeText .utf8bom [0x61, 0xE2, 0x82, 0x62] = [0x61, 0xEF, 0xBF, 0xBD, 0x62]
+    ∧ decodeText .utf8bom [0xC0, 0x80] = [0xEF, 0xBF, 0xBD, 0xEF, 0xBF, 0xBD]
+    ∧ decodeText .utf8bom [0xED, 0xA0, 0x80] = [0xEF, 0xBF, 0xBD, 0xEF, 0xBF, 0xBD, 0xEF, 0xBF, 0xBD]
+    ∧ decodeText .utf8bom [0xF4, 0x90, 0x80, 0x80] = [0xEF, 0xBF, 0xBD, 0xEF, 0xBF, 0xBD, 0xEF, 0xBF, 0xBD, 0xEF, 0xBF, 0xBD]
+    ∧ decodeText .utf8bom [0xF0, 0x9F, 0x98] = [0xEF, 0xBF, 0xBD]
+    ∧ decodeText .utf16le [0x3D, 0xD8, 0x41, 0x00, 0x42] = [0xEF, 0xBF, 0xBD, 0x41, 0xEF, 0xBF, 0xBD] := by
+  decide +kernel
+
 /-! ### UTF-8 / UTF-16 codecs on code points (stretch; valid input) -/
 
 /-- UTF-8: decoding the encoding of any list of Unicode scalar values gives the list back -/
@@ -350,7 +554,7 @@ theorem utf8_roundtrip (cs : List Nat) (h : ∀ c ∈ cs, isScalar c) :
 
 /-- the UTF-8 text reader strips a leading BOM and returns valid UTF-8 unchanged -/
 theorem utf8_text_bom (cs : List Nat) (h : ∀ c ∈ cs, isScalar c) :
-    decodeText .utf8bom (0xEF :: 0xBB :: 0xBF :: cs.flatMap utf8Encode) = some (cs.flatMap utf8Encode) := by
+    decodeText .utf8bom (0xEF :: 0xBB :: 0xBF :: cs.flatMap utf8Encode) = cs.flatMap utf8Encode := by
   have hlen : cs.length < (cs.flatMap utf8Encode).length + 1 := by
     have : ∀ l : List Nat, l.length ≤ (l.flatMap utf8Encode).length := by
       intro l; induction l with
@@ -361,14 +565,13 @@ theorem utf8_text_bom (cs : List Nat) (h : ∀ c ∈ cs, isScalar c) :
         omega
     have := this cs; omega
   simp only [decodeText]
-  rw [utf8_roundtrip_list cs h _ hlen]
-  rfl
+  exact utf8Replace_valid cs h _ hlen
 
 /-- UTF-16, fixed byte order: the reader returns the UTF-8 encoding of the same code points
     (surrogate pairs combined) -/
 theorem utf16_roundtrip (le : Bool) (cs : List Nat) (h : ∀ c ∈ cs, isScalar c) :
     decodeText (if le then .utf16le else .utf16be) (unitsToBytes le (cs.flatMap utf16Encode))
-      = some (cs.flatMap utf8Encode) := by
+      = cs.flatMap utf8Encode := by
   have hu : ∀ u ∈ cs.flatMap utf16Encode, u < 65536 := by
     intro u hu
     obtain ⟨c, hc, huc⟩ := List.mem_flatMap.mp hu
@@ -377,8 +580,8 @@ theorem utf16_roundtrip (le : Bool) (cs : List Nat) (h : ∀ c ∈ cs, isScalar 
 
 /-- UTF-16 with byte order mark: the BOM selects the byte order and is not part of the text -/
 theorem utf16_bom_roundtrip (cs : List Nat) (h : ∀ c ∈ cs, isScalar c) :
-    decodeText .utf16bom (0xFE :: 0xFF :: unitsToBytes false (cs.flatMap utf16Encode)) = some (cs.flatMap utf8Encode)
-    ∧ decodeText .utf16bom (0xFF :: 0xFE :: unitsToBytes true (cs.flatMap utf16Encode)) = some (cs.flatMap utf8Encode) := by
+    decodeText .utf16bom (0xFE :: 0xFF :: unitsToBytes false (cs.flatMap utf16Encode)) = cs.flatMap utf8Encode
+    ∧ decodeText .utf16bom (0xFF :: 0xFE :: unitsToBytes true (cs.flatMap utf16Encode)) = cs.flatMap utf8Encode := by
   have hu : ∀ u ∈ cs.flatMap utf16Encode, u < 65536 := by
     intro u hu
     obtain ⟨c, hc, huc⟩ := List.mem_flatMap.mp hu
